@@ -20,7 +20,8 @@ CONTRACTS = {}
 
 
 class Contract:
-    def __init__(self, name, fn, props, harness, prop_level=True, opts=None, doc="", deps=(), bounded_n=0, tags=()):
+    def __init__(self, name, fn, props, harness, prop_level=True, opts=None, doc="", deps=(), bounded_n=0, tags=(), loops=None):
+        self.loops = loops or {}
         self.name, self.fn, self.props, self.harness = name, fn, list(props), harness
         self.prop_level = prop_level
         self.opts = opts or {}
@@ -30,11 +31,11 @@ class Contract:
         self.tags = set(tags)
 
 
-def contract(name, fn, props, prop_level=True, opts=None, deps=(), tags=()):
+def contract(name, fn, props, prop_level=True, opts=None, deps=(), tags=(), loops=None):
     def deco(h):
         if name in CONTRACTS:
             raise ContractError("duplicate contract " + name)
-        CONTRACTS[name] = Contract(name, fn, props, h, prop_level, opts, (h.__doc__ or "").strip(), deps, tags=tags)
+        CONTRACTS[name] = Contract(name, fn, props, h, prop_level, opts, (h.__doc__ or "").strip(), deps, tags=tags, loops=loops)
         return h
     return deco
 
